@@ -167,6 +167,7 @@ type interpreter struct {
 	summaryPaths       int
 	fastDecisions      int
 	uuidSeq            int
+	fmtDepth           int
 }
 
 type assertRec struct {
